@@ -131,3 +131,28 @@ func (c *call) retOrInf() uint64 {
 	}
 	return c.ret
 }
+
+// contains: was the call in flight at the given step?
+func (c *call) contains(step uint64) bool { return c.inv < step && step < c.retOrInf() }
+
+func stampsOverlap(inv1, ret1, inv2, ret2 uint64) bool {
+	return (&call{inv1, ret1}).overlaps(&call{inv2, ret2})
+}
+
+// reach counts reach probes: hit calls s.Probe(name) the first time cond holds in a run, so that a probe count in
+// the evidence reads "number of runs in which the situation occurred". Probes are counters only: the conditions are
+// computed from what the harness records anyway, they draw no decision, add no scheduling point and do not advance
+// the step counter (extra stamps taken for probes use s.Step(), never s.Tick()).
+type reach struct {
+	s    *simrt.Sim
+	seen map[string]bool
+}
+
+func newReach(s *simrt.Sim) *reach { return &reach{s: s, seen: map[string]bool{}} }
+
+func (r *reach) hit(name string, cond bool) {
+	if cond && !r.seen[name] {
+		r.seen[name] = true
+		r.s.Probe(name)
+	}
+}
